@@ -200,7 +200,7 @@ pub fn def() -> PropDef {
         ],
         spaces: vec![
             Space { name: "small", decode: decode_small, plan: |t| match t { Tier::Quick => Plan::Enumerate(enumerate_small(4), true, "all strings of length <= 4 over the 15-character alphabet x 7 languages"), Tier::Thorough => Plan::Enumerate(enumerate_small(5), true, "all strings of length <= 5 over the 15-character alphabet x 7 languages") } },
-            Space { name: "random", decode: decode_random, plan: |t| Plan::Random(t.n(200_000, 6_000_000)) },
+            Space { name: "random", decode: decode_random, plan: |t| Plan::Random(t.n(400_000, 8_000_000)) },
         ],
         differential: false,
     }
